@@ -3,7 +3,7 @@
 From Coq Require Import List ZArith Lia Bool.
 Import ListNotations.
 From CAres.Wire Require Import Cursor Name Record Parse Escape Escape_proofs RefDecode Name_ref Write Write_name Write_host
-     Write_name2 Write_pos Write_patch Write_enc Write_fields Write_query2 Wnorm.
+     Write_name2 Write_name3 Write_pos Write_patch Write_enc Write_fields Write_query2 Wnorm.
 From CAres.Gen Require Import Consts LeafFns Tables.
 Local Open Scope Z_scope.
 
@@ -195,7 +195,7 @@ Proof. intros H. lia. Qed.
 
 (* ---- values a field may hold for the round trip ---- *)
 Definition name_text_wf (n : list N) : Prop :=
-  exists ls, n = escape_name ls /\ Forall label_ok ls /\ wire_len ls <= 256 /\ slen n < 512.
+  exists ls, split_dns_name false n = Ok ls /\ Forall label_ok ls /\ slen n < 512.
 
 Definition fval_wf (k : fkind) (v : fval) : Prop :=
   match k with
@@ -215,26 +215,29 @@ Definition fval_wf (k : fkind) (v : fval) : Prop :=
 (* what the reference decoder reports for it *)
 Definition dec_val (k : fkind) (v : fval) : fval :=
   match k, v with
-  | KName, FStr s => FName s
+  | KName, FStr (Some n) => FName (Some (canon n))
+  | KName, FName (Some n) => FName (Some (canon n))
   | KCharStr _, FName s => FStr s
   | KRestText, FStr s => FName s
   | _, _ => v
   end.
 
-Lemma dec_val_norm k v : fval_wf k v -> norm_fval (dec_val k v) = norm_fval v.
-Proof.
-  destruct k; cbn [fval_wf]; intros H; repeat (destruct H as (? & H)); subst; try reflexivity;
-    match goal with H : _ \/ _ |- _ => destruct H as [G|G]; rewrite G; reflexivity end.
-Qed.
+(* the record with every name in canonical presentation form *)
+Definition canon_fval (k : fkind) (v : fval) : fval :=
+  match k, v with
+  | KName, FStr (Some n) => FStr (Some (canon n))
+  | KName, FName (Some n) => FName (Some (canon n))
+  | _, _ => v
+  end.
 
-Lemma dec_val_wnorm k v : fval_wf k v -> Wnorm.wnorm_fval (dec_val k v) = Wnorm.wnorm_fval v.
+Lemma dec_val_wnorm k v : fval_wf k v -> Wnorm.wnorm_fval (dec_val k v) = Wnorm.wnorm_fval (canon_fval k v).
 Proof.
   destruct k; cbn [fval_wf]; intros H; repeat (destruct H as (? & H)); subst; try reflexivity;
     match goal with H : _ \/ _ |- _ => destruct H as [G|G]; rewrite G; reflexivity end.
 Qed.
 
 Definition olp_ok (C : list N) (nlp : option (list nameoffset)) : Prop :=
-  match nlp with Some ol => ol_ok C ol | None => True end.
+  match nlp with Some ol => ol_okg C ol | None => True end.
 
 Definition last_kind (k : fkind) : bool :=
   match k with KRestBin | KRestText | KCharStrs | KTlvs => true | _ => false end.
@@ -268,42 +271,43 @@ Proof.
   destruct k; cbn [fval_wf] in Hwf; unfold wfield in H; change (fst (b, nlp)) with b in H; change (snd (b, nlp)) with nlp in H.
   - (* addr4 *)
     destruct Hwf as (a & -> & Ha & Hab). rewrite Hg in H. injection H as <- <-.
-    exists a. split; [apply live_is_append; exact Hb|]. split; [exact Hab|]. split; [destruct nlp; [apply ol_ok_app; exact Hol | exact I]|].
+    exists a. split; [apply live_is_append; exact Hb|]. split; [exact Hab|]. split; [destruct nlp; [apply ol_okg_app; exact Hol | exact I]|].
     split; [auto|]. intros e post _ _. cbn [ref_field dec_val is_tlvs]. rewrite <- Ha, slice_app_mid. reflexivity.
   - (* addr6 *)
     destruct Hwf as (a & -> & Ha & Hab). rewrite Hg in H. injection H as <- <-.
-    exists a. split; [apply live_is_append; exact Hb|]. split; [exact Hab|]. split; [destruct nlp; [apply ol_ok_app; exact Hol | exact I]|].
+    exists a. split; [apply live_is_append; exact Hb|]. split; [exact Hab|]. split; [destruct nlp; [apply ol_okg_app; exact Hol | exact I]|].
     split; [auto|]. intros e post _ _. cbn [ref_field dec_val is_tlvs]. rewrite <- Ha, slice_app_mid. reflexivity.
   - (* u8 *)
     destruct Hwf as (z & -> & Hz). unfold write_rr_u8 in H. rewrite Hg in H. cbn [bind] in H. injection H as <- <-.
     exists [Z.to_N (Z.land z 255)]. split; [apply live_is_append; exact Hb|]. split; [apply bytes_ok_byte|].
-    split; [destruct nlp; [apply ol_ok_app; exact Hol | exact I]|]. split; [auto|].
+    split; [destruct nlp; [apply ol_okg_app; exact Hol | exact I]|]. split; [auto|].
     intros e post _ _. cbn [ref_field dec_val is_tlvs]. rewrite (octet_byte C z post Hz). reflexivity.
   - (* u16 *)
     destruct Hwf as (z & -> & Hz). unfold write_rr_be16 in H. rewrite Hg in H. cbn [bind] in H. injection H as <- <-.
     exists (be16b z). split; [apply live_is_append; exact Hb|]. split; [apply bytes_ok_be16b|].
-    split; [destruct nlp; [apply ol_ok_app; exact Hol | exact I]|]. split; [auto|].
+    split; [destruct nlp; [apply ol_okg_app; exact Hol | exact I]|]. split; [auto|].
     intros e post _ _. cbn [ref_field dec_val is_tlvs]. rewrite (u16_at_ctx C z post Hz). reflexivity.
   - (* u32 *)
     destruct Hwf as (z & -> & Hz). unfold write_rr_be32 in H. rewrite Hg in H. cbn [bind] in H. injection H as <- <-.
     exists (be32b z). split; [apply live_is_append; exact Hb|]. split; [apply bytes_ok_be32b|].
-    split; [destruct nlp; [apply ol_ok_app; exact Hol | exact I]|]. split; [auto|].
+    split; [destruct nlp; [apply ol_okg_app; exact Hol | exact I]|]. split; [auto|].
     intros e post _ _. cbn [ref_field dec_val is_tlvs]. rewrite (u32_at_ctx C z post Hz). reflexivity.
   - (* name *)
-    destruct Hwf as (n & Hv & ls & -> & Hls & Hw & Ht).
-    assert (Hnw : name_write wfixed 0 b nlp false (escape_name ls) = Ok (b', nlp')).
+    destruct Hwf as (n & Hv & ls & Hsp & Hls & Ht).
+    assert (Hnw : name_write wfixed 0 b nlp false n = Ok (b', nlp')).
     { unfold write_rr_name in H. rewrite Hg in H. destruct Hv as [->| ->]; exact H. }
-    pose proof (name_write_enc wfixed 0 b nlp false (escape_name ls)) as W. cbn [wfixed wv_msg_relative] in W.
+    pose proof (name_write_enc wfixed 0 b nlp false n) as W. cbn [wfixed wv_msg_relative] in W.
     rewrite (live_is_len b L Hb), Z.sub_0_r, <- HC in W.
-    destruct (name_enc wfixed (Z.of_nat (length C)) nlp false (escape_name ls)) as [[x nl'']| |] eqn:Ee;
+    destruct (name_enc wfixed (Z.of_nat (length C)) nlp false n) as [[x nl'']| |] eqn:Ee;
       [|rewrite W in Hnw; discriminate Hnw|rewrite W in Hnw; discriminate Hnw].
     destruct W as (b'' & Ew & Hl'' & Hw'' & Hf''). rewrite Hnw in Ew. injection Ew as <- <-.
-    assert (Hdv : dec_val KName v = FName (Some (escape_name ls))) by (destruct Hv as [->| ->]; reflexivity).
+    assert (Hdv : dec_val KName v = FName (Some (escape_name ls))).
+    { destruct Hv as [->| ->]; cbn [dec_val]; rewrite (canon_of false n ls Hsp); reflexivity. }
     destruct nlp as [ol|].
-    + destruct (name_enc_ok false C ol ls x nlp' Hol Hls Hw Ht ltac:(discriminate) Ee) as (ol' & -> & Hol' & Hxb & Href).
+    + destruct (name_enc_ok false C ol n ls x nlp' Hol Hsp Hls Ht Ee) as (ol' & -> & Hol' & Hxb & Href).
       exists x. split; [split; [auto | split; [auto | rewrite Hl'', Hbl; reflexivity]]|]. split; [exact Hxb|]. split; [exact Hol'|].
       split; [discriminate|]. intros e post _ _. cbn [ref_field is_tlvs]. rewrite Href, Hdv. reflexivity.
-    + rewrite (name_enc_none wfixed _ ls Hls Hw Ht) in Ee. injection Ee as <- <-.
+    + rewrite (name_enc_none wfixed _ n ls Hsp Hls Ht) in Ee. injection Ee as <- <-.
       exists (enc_labels ls ++ [0%N]). split; [split; [auto | split; [auto | rewrite Hl'', Hbl; reflexivity]]|].
       split; [apply bytes_ok_app; [apply bytes_ok_enc; exact Hls | repeat constructor]|]. split; [exact I|]. split; [reflexivity|].
       intros e post _ _. cbn [ref_field is_tlvs]. rewrite <- app_assoc. cbn [app].
@@ -319,7 +323,7 @@ Proof.
     exists (enc_charstr s). split.
     { unfold wb_append_byte, enc_charstr. rewrite <- (len_byte s Hl). apply (live_is_app2 b L [_] s Hb). }
     split; [unfold enc_charstr; constructor; [apply bytes_ok_len_byte; exact Hl | exact Hsb]|].
-    split; [destruct nlp; [apply ol_ok_app; exact Hol | exact I]|]. split; [auto|].
+    split; [destruct nlp; [apply ol_okg_app; exact Hol | exact I]|]. split; [auto|].
     intros e post He _. cbn [is_tlvs]. unfold enc_charstr in He. cbn [length] in He.
     rewrite (charstr_decodes nonempty C s post e Hl Hne He), Hdv. reflexivity.
   - (* <character-string>s *)
@@ -334,7 +338,7 @@ Proof.
     exists (enc_charstrs (s0 :: l0)). split; [split; [auto | split; [auto | rewrite E, Hbl; reflexivity]]|].
     split; [apply bytes_ok_flat; eapply Forall_impl; [|exact Hl]; intros s (Hs1 & Hs2); unfold enc_charstr; constructor;
             [apply bytes_ok_len_byte; exact Hs1 | exact Hs2]|].
-    split; [destruct nlp; [apply ol_ok_app; exact Hol | exact I]|]. split; [auto|].
+    split; [destruct nlp; [apply ol_okg_app; exact Hol | exact I]|]. split; [auto|].
     intros e post _ He. specialize (He eq_refl). subst e. cbn [ref_field dec_val is_tlvs].
     assert (Hpos : (0 < length (enc_charstrs (s0 :: l0)))%nat) by (unfold enc_charstrs; cbn [flat_map]; unfold enc_charstr at 1; cbn [app length]; lia).
     replace (Nat.leb (length C + length (enc_charstrs (s0 :: l0))) (length C)) with false by (symmetry; apply Nat.leb_gt; lia).
@@ -345,7 +349,7 @@ Proof.
     replace (slen d =? 0) with false in H by (symmetry; apply Z.eqb_neq; unfold slen; destruct d; [congruence | cbn [length]; lia]).
     cbn [bind] in H. injection H as <- <-.
     exists d. split; [apply live_is_append; exact Hb|]. split; [exact Hdb|].
-    split; [destruct nlp; [apply ol_ok_app; exact Hol | exact I]|]. split; [auto|].
+    split; [destruct nlp; [apply ol_okg_app; exact Hol | exact I]|]. split; [auto|].
     intros e post _ He. specialize (He eq_refl). subst e. cbn [ref_field dec_val is_tlvs].
     replace (Nat.leb (length C + length d) (length C)) with false by (symmetry; apply Nat.leb_gt; destruct d; [congruence | cbn [length]; lia]).
     replace (length C + length d - length C)%nat with (length d) by lia. rewrite slice_app_mid. reflexivity.
@@ -357,7 +361,7 @@ Proof.
     injection Hws as <- <-.
     assert (Hdv : dec_val KRestText v = FName (Some s)) by (destruct Hv as [->| ->]; reflexivity).
     exists s. split; [apply live_is_append; exact Hb|]. split; [exact Hsb|].
-    split; [destruct nlp; [apply ol_ok_app; exact Hol | exact I]|]. split; [auto|].
+    split; [destruct nlp; [apply ol_okg_app; exact Hol | exact I]|]. split; [auto|].
     intros e post _ He. specialize (He eq_refl). subst e. cbn [ref_field is_tlvs].
     replace (Nat.leb (length C + length s) (length C)) with false by (symmetry; apply Nat.leb_gt; destruct s; [congruence | cbn [length]; lia]).
     replace (length C + length s - length C)%nat with (length s) by lia. rewrite slice_app_mid, Hdv. reflexivity.
@@ -368,7 +372,7 @@ Proof.
     exists (enc_tlvs l). split; [split; [auto | split; [auto | rewrite E, Hbl; reflexivity]]|].
     split; [apply bytes_ok_flat; eapply Forall_impl; [|exact Hl]; intros ov (_ & Hs2); unfold enc_tlv;
             repeat apply bytes_ok_app; try apply bytes_ok_be16b; exact Hs2|].
-    split; [destruct nlp; [apply ol_ok_app; exact Hol | exact I]|]. split; [auto|].
+    split; [destruct nlp; [apply ol_okg_app; exact Hol | exact I]|]. split; [auto|].
     intros e post _ He. specialize (He eq_refl). subst e. cbn [ref_field dec_val is_tlvs].
     rewrite (tlvs_decodes l C post _ Hl1); [reflexivity|].
     pose proof (enc_tlvs_len l). lia.
